@@ -311,6 +311,10 @@ def _rewrite_iters(body: str, rules: Counter) -> str:
     pat = re.compile(r'([\w\.\[\]]+?)\s*\.children\s*\.iter\(\)\s*\.filter\(\|&&(\w+)\|\s*\2\.is_some\(\)\)\s*\.count\(\)')
     body, k = pat.subn(lambda q: f'count_some(&{q.group(1)}.children)', body)
     rules['I6'] += k
+    # I6b: E.iter().flatten().count()   (number of occupied slots of [Option<_>; K])
+    pat = re.compile(r'([\w\.]+?)\s*\.iter\(\)\s*\.flatten\(\)\s*\.count\(\)')
+    body, k = pat.subn(lambda q: f'count_some(&{q.group(1)})', body)
+    rules['I6'] += k
     # I7 (expression form): T.children(I).map(|e| e.target_idx).collect_vec()
     pat = re.compile(r'([\w\.]+?)\s*\.children\(([^()]*)\)\s*\.map\(\|(\w+)\|\s*\3\.target_idx\)\s*\.collect_vec\(\)')
     body, k = pat.subn(lambda q: f'children_idx_vec(&{q.group(1)}, {q.group(2)})', body)
